@@ -5,15 +5,15 @@ cd /verif
 ids=${@:-C01 C02 C03 C04 C05 C06 C07 C08 C09 C10 C11 C12 C13 C14 C15 C16 C17 C18 C19 C20}
 for id in $ids; do
   for n in 1 2; do
-    dir=/verif/seeded/_incoming/$id; patch=$dir/change$n.diff
+    dir=${SEED_SRC:-/verif/seeded/_incoming}/$id; patch=$dir/change$n.diff
     [ -f "$patch" ] || continue
     cd /repo
-    if ! git diff --quiet; then echo "{\"id\":\"$id\",\"n\":$n,\"error\":\"repo dirty\"}" >> /verif/.work/catch.jsonl; cd /verif; continue; fi
-    if ! git apply "$patch" 2>/dev/null; then echo "{\"id\":\"$id\",\"n\":$n,\"error\":\"does not apply\"}" >> /verif/.work/catch.jsonl; cd /verif; continue; fi
+    if ! git diff --quiet; then echo "{\"id\":\"$id\",\"n\":$n,\"error\":\"repo dirty\"}" >> /verif/.work/${CATCH_OUT:-catch.jsonl}; cd /verif; continue; fi
+    if ! git apply "$patch" 2>/dev/null; then echo "{\"id\":\"$id\",\"n\":$n,\"error\":\"does not apply\"}" >> /verif/.work/${CATCH_OUT:-catch.jsonl}; cd /verif; continue; fi
     cd /verif
     out=$(./check $id --no-evidence 2>&1); rc=$?
     keys=$(echo "$out" | grep -oE "key=[^ ]+" | sort -u | head -6 | tr '\n' ' ')
     git -C /repo checkout -q -- .
-    echo "{\"id\":\"$id\",\"n\":$n,\"check\":\"$id\",\"exit\":$rc,\"keys\":\"$keys\"}" >> /verif/.work/catch.jsonl
+    echo "{\"id\":\"$id\",\"n\":$n,\"check\":\"$id\",\"exit\":$rc,\"keys\":\"$keys\"}" >> /verif/.work/${CATCH_OUT:-catch.jsonl}
   done
 done
